@@ -49,6 +49,28 @@ type c12Job struct {
 	Lo     int64 `json:"lo"`
 	Hi     int64 `json:"hi"`
 	Fixed  []int `json:"fixed,omitempty"` // fixed prefix of lexeme indexes (the enumeration covers the remaining positions)
+	// Deep != "": one deeply nested query "<shape>:<n>:<parser>" (shape paren | not) instead of an enumeration
+	Deep string `json:"deep,omitempty"`
+}
+
+// c12DeepQuery builds the deeply nested query of a descriptor "<shape>:<n>:<parser>".
+func c12DeepQuery(desc string) (q, lang string) {
+	var shape string
+	var n int
+	parts := strings.Split(desc, ":")
+	shape, lang = parts[0], parts[2]
+	fmt.Sscanf(parts[1], "%d", &n)
+	kw := "not "
+	if lang == "legacy" {
+		kw = "NOT "
+	}
+	switch shape {
+	case "paren":
+		return strings.Repeat("(", n) + "k:a" + strings.Repeat(")", n), lang
+	case "not":
+		return strings.Repeat(kw, n) + "k:a", lang
+	}
+	panic(desc)
 }
 
 type c12Panic struct {
@@ -105,6 +127,21 @@ func c12Handle(raw json.RawMessage) any {
 		panic(err)
 	}
 	var res c12Res
+	if job.Deep != "" {
+		q, lang := c12DeepQuery(job.Deep)
+		m := seq.Mapping{"k": seq.NewSingleType(seq.TokenizerTypeKeyword, "", 0)}
+		if p := vlib.Catch(func() {
+			if lang == "legacy" {
+				parser.ParseQuery(q, m)
+			} else {
+				parser.ParseSeqQL(q, m)
+			}
+		}); p != nil {
+			res.Panics = append(res.Panics, c12Panic{Input: job.Deep, Parser: lang, Msg: fmt.Sprint(p)})
+		}
+		res.Count = 1
+		return res
+	}
 	seen := map[string]bool{}
 	for i := job.Lo; i < job.Hi; i++ {
 		q := c12String(job.Fixed, i, job.Len)
@@ -122,6 +159,22 @@ func c12Handle(raw json.RawMessage) any {
 
 func TestVerifWorker(t *testing.T) {
 	vlib.ServeWorker(map[string]vlib.Handler{"c12": c12Handle})
+}
+
+func c12DeathCause(stderr string) string {
+	for _, l := range strings.Split(stderr, "\n") {
+		if strings.HasPrefix(l, "fatal error:") || strings.HasPrefix(l, "panic:") {
+			return strings.TrimSpace(l)
+		}
+	}
+	return "unknown"
+}
+
+func tailN(s string, n int) string {
+	if len(s) > n {
+		return s[len(s)-n:]
+	}
+	return s
 }
 
 func c12NormMsg(m string) string {
@@ -222,6 +275,37 @@ func (n *bnode) render(full bool, kw func(string) string) string {
 		core = kw("not") + " " + core
 	}
 	return core
+}
+
+// evalASTDoc evaluates the AST on a document given as the set of "field:value" tokens it holds.
+func evalASTDoc(n *parser.ASTNode, doc map[string]bool) (bool, error) {
+	switch t := n.Value.(type) {
+	case *parser.Literal:
+		if len(t.Terms) != 1 {
+			return false, fmt.Errorf("unexpected terms %v", t.Terms)
+		}
+		return doc[t.Field+":"+t.Terms[0].Data], nil
+	case *parser.Logical:
+		var vs []bool
+		for _, c := range n.Children {
+			v, err := evalASTDoc(c, doc)
+			if err != nil {
+				return false, err
+			}
+			vs = append(vs, v)
+		}
+		switch t.Operator {
+		case parser.LogicalAnd:
+			return vs[0] && vs[1], nil
+		case parser.LogicalOr:
+			return vs[0] || vs[1], nil
+		case parser.LogicalNAnd:
+			return !vs[0] && vs[1], nil
+		case parser.LogicalNot:
+			return !vs[0], nil
+		}
+	}
+	return false, fmt.Errorf("unknown node %T", n.Value)
 }
 
 func evalAST(n *parser.ASTNode, a [3]bool) (bool, error) {
@@ -350,7 +434,16 @@ func TestVerifC12(t *testing.T) {
 	r := vlib.NewRun("C12")
 	var rc c12Case
 	if r.LoadReplay(&rc) {
-		if rc.Kind == "totality" {
+		if rc.Kind == "deep" {
+			pool := vlib.NewPool("c12", 1)
+			defer pool.Close()
+			var res c12Res
+			jr, _ := pool.Do(c12Job{Deep: rc.Input}, &res, 300*time.Second)
+			if jr.Died || jr.Hung || len(res.Panics) > 0 {
+				parts := strings.Split(rc.Input, ":")
+				r.Violation(fmt.Sprintf("totality: the process dies on a deeply nested query parser=%s shape=%s cause=%s", parts[2], parts[0], c12DeathCause(jr.Stderr)), rc, tailN(jr.Stderr, 600))
+			}
+		} else if rc.Kind == "totality" {
 			c12ParseAll(rc.Input, func(p c12Panic) {
 				r.Violation(fmt.Sprintf("totality panic parser=%s msg=%s", p.Parser, c12NormMsg(p.Msg)), rc, fmt.Sprintf("input %q: %s", p.Input, p.Msg))
 			})
@@ -457,6 +550,30 @@ func TestVerifC12(t *testing.T) {
 			}
 		}
 	}
+	// ---- (a') deep nesting: a query of a few megabytes must be answered (query or error), not kill the process.
+	// One at a time: a parser that recurses per nesting level grows its stack to the 1 GiB limit before it dies.
+	for _, desc := range []string{"paren:4000000:seqql", "paren:4000000:legacy", "not:4000000:legacy"} {
+		if r.Expired() {
+			break
+		}
+		var res c12Res
+		jr, err := pool.Do(c12Job{Deep: desc}, &res, 300*time.Second)
+		if err != nil {
+			panic(err)
+		}
+		r.Add("evaluations", 1)
+		r.Add("deep_nesting_queries", 1)
+		parts := strings.Split(desc, ":")
+		c := c12Case{Kind: "deep", Input: desc, Parser: parts[2]}
+		switch {
+		case jr.Died:
+			r.Violation(fmt.Sprintf("totality: the process dies on a deeply nested query parser=%s shape=%s cause=%s", parts[2], parts[0], c12DeathCause(jr.Stderr)), c, fmt.Sprintf("query: %s levels of %q around k:a (%s MB)\n%s", parts[1], parts[0], "4-16", tailN(jr.Stderr, 600)))
+		case jr.Hung:
+			r.Violation(fmt.Sprintf("totality: parser does not terminate on a deeply nested query parser=%s shape=%s", parts[2], parts[0]), c, "no answer within 300 s")
+		case len(res.Panics) > 0:
+			r.Violation(fmt.Sprintf("totality panic on a deeply nested query parser=%s shape=%s msg=%s", parts[2], parts[0], c12NormMsg(res.Panics[0].Msg)), c, res.Panics[0].Msg)
+		}
+	}
 	// ---- (b) meaning ----
 	kwLower := func(s string) string { return s }
 	kwUpper := func(s string) string { return strings.ToUpper(s) }
@@ -468,6 +585,36 @@ func TestVerifC12(t *testing.T) {
 				r.Add("meaning_cases", 2)
 			}
 		})
+	}
+	// in(...) lists of EVERY length 1..130: the filter selects exactly the documents holding one of the listed
+	// values (one document per listed value and one with an unlisted value), plain, negated and conjoined
+	for n := 1; n <= 130 && !r.Expired(); n++ {
+		vals := make([]string, n)
+		for i := range vals {
+			vals[i] = fmt.Sprintf("v%d", i)
+		}
+		list := strings.Join(vals, ", ")
+		for shape, q := range []string{"k:in(" + list + ")", "not k:in(" + list + ")", "k:in(" + list + ") and g:x", "g:x or k:in(" + list + ")"} {
+			r.Add("evaluations", 1)
+			r.Add("meaning_cases", 1)
+			c := c12Case{Kind: "meaning", Input: q, Parser: "seqql"}
+			var qq parser.SeqQLQuery
+			var err error
+			if p := vlib.Catch(func() { qq, err = parser.ParseSeqQL(q, nil) }); p != nil || err != nil {
+				r.Violation(fmt.Sprintf("meaning seqql: in-list of %d values rejected (shape %d)", n, shape), c, fmt.Sprintf("%v %v", p, err))
+				continue
+			}
+			for d := 0; d <= n; d++ { // document d holds k:v<d> (d == n: an unlisted value); g:x on even documents
+				doc := map[string]bool{fmt.Sprintf("k:v%d", d): true, "g:x": d%2 == 0}
+				listed := d < n
+				want := [4]bool{listed, !listed, listed && doc["g:x"], doc["g:x"] || listed}[shape]
+				got, err := evalASTDoc(qq.Root, doc)
+				if err != nil || got != want {
+					r.Violation(fmt.Sprintf("meaning seqql: in-list of %d values is not the disjunction of its values (shape %d)", n, shape), c, fmt.Sprintf("document with k:v%d: AST evaluates to %v, the written expression to %v (err %v)", d, got, want, err))
+					break
+				}
+			}
+		}
 	}
 	// in(...) is a disjunction; several words on a text field are a conjunction
 	c12JudgeMeaning(r, `k:in(a, b, c)`, "seqql", func(a [3]bool) bool { return a[0] || a[1] || a[2] })
@@ -504,7 +651,7 @@ func TestVerifC12(t *testing.T) {
 	r.Sample(c12Case{Kind: "meaning", Input: "not (k:a or not k:b) and k:c", Parser: "seqql"})
 	ev := r.Get("evaluations")
 	r.Finish(t, "model_checking",
-		fmt.Sprintf("totality: every string of <=%d lexemes over a %d-lexeme alphabet (field names of every mapping type incl. object/tags/nested/exists/multi-type/unmapped, all punctuation of both grammars, keywords, quotes of three kinds, backslash, comment, invalid UTF-8, the private-use wildcard rune) plus every string '<field>:' + %d lexemes, through ParseSeqQL and ParseQuery (full and nil mapping) and ParseAggregationFilter, each under recover, in worker subprocesses (hang => bisection); single-edit mutation closure (delete / duplicate / insert / substitute by every lexeme at every position) of 8 seed queries. meaning: every boolean tree with <=4 leaves over 3 atoms with NOT at every node (double NOT at the root), minimal and full parentheses, both languages, all 8 assignments; in(...) and text-word conjunction. distinct_nontrivial = distinct well-formed queries whose meaning was compared", maxLen, len(c12Lexemes), maxLen),
+		fmt.Sprintf("totality: every string of <=%d lexemes over a %d-lexeme alphabet (field names of every mapping type incl. object/tags/nested/exists/multi-type/unmapped, all punctuation of both grammars, keywords, quotes of three kinds, backslash, comment, invalid UTF-8, the private-use wildcard rune) plus every string '<field>:' + %d lexemes, through ParseSeqQL and ParseQuery (full and nil mapping) and ParseAggregationFilter, each under recover, in worker subprocesses (hang => bisection); three deeply nested queries (4 M levels of parentheses in both parsers, 4 M NOTs in the legacy parser; the process must survive); single-edit mutation closure (delete / duplicate / insert / substitute by every lexeme at every position) of 8 seed queries. meaning: every boolean tree with <=4 leaves over 3 atoms with NOT at every node (double NOT at the root), minimal and full parentheses, both languages, all 8 assignments; in(...) lists of every length 1..130 in 4 query shapes, judged on one document per listed value plus an unlisted one; text-word conjunction. distinct_nontrivial = distinct well-formed queries whose meaning was compared", maxLen, len(c12Lexemes), maxLen),
 		map[string]any{
 			"states":                        r.Get("totality_strings") + r.Get("mutation_strings") + r.Get("meaning_cases"),
 			"transitions":                   ev,
